@@ -183,7 +183,7 @@ let rec length_nat = function [] -> O | _ :: r -> S (length_nat r)
 
 (* the oracle_at of the deck of (a, root), as Eval/OracleEval.v's [evaluator] builds it *)
 let oracle_at_of (o : float ops) (a : float arena) (d : float deck) =
-  let fuel = length_nat a in
+  let fuel = nat_of_int 64 in   (* nesting depth of transformed oracles *)
   fun k px py pz ->
     match List.nth_opt d.d_oracles (int_of_nat k) with
     | Some (_, id) -> oracle_obj o (osem_of o) fuel a id px py pz
@@ -192,12 +192,13 @@ let oracle_at_of (o : float ops) (a : float arena) (d : float deck) =
 (* value of handle [h] through the full pipeline in arithmetic [o] *)
 let eval_pipeline (o : float ops) (optimize : bool) (a : float arena) (h : int)
     (varval : int -> float) (x : float) (y : float) (z : float) : float =
-  let (a1, r) = if optimize then optimized o a (nat_of_int h) else flatten o a (nat_of_int h) in
-  if Hashtbl.length oracle_tbl = 0 then
+  if Hashtbl.length oracle_tbl = 0 then begin
+    let (a1, r) = if optimize then optimized o a (nat_of_int h) else flatten o a (nat_of_int h) in
     let d = mk_deck a1 r in
     tape_value o no_oracle d d.d_tape d.d_root (fun v -> varval (int_of_nat v)) x y z
-  else
-    evaluator o (osem_of o) (S (length_nat a1)) a1 r (fun v -> varval (int_of_nat v)) x y z
+  end else
+    (* Eval/OracleEval.v's evaluator optimises the tree itself, like Deck::Deck(Tree) *)
+    evaluator o (osem_of o) (nat_of_int 64) a (nat_of_int h) (fun v -> varval (int_of_nat v)) x y z
 
 let () =
   let a = ref (init_arena f32) in
@@ -317,7 +318,8 @@ let () =
                 let v32u = eval_pipeline f32 false !a (h t) varval x y z in
                 (* reference denotation in doubles on the un-optimised flattened tree,
                    with the largest intermediate magnitude and a sensitivity estimate *)
-                let (a1, r) = flatten f64 !a (nat_of_int (h t)) in
+                let (a1, r) = if Hashtbl.length oracle_tbl = 0 then flatten f64 !a (nat_of_int (h t))
+                              else optimized f64 !a (nat_of_int (h t)) in
                 let d = mk_deck a1 r in
                 let run vv x y z =
                   let sl = eval_tape f64 (if Hashtbl.length oracle_tbl = 0 then no_oracle else oracle_at_of f64 a1 d) d d.d_tape
